@@ -51,8 +51,10 @@ class ModuleInfo:
                     mod = node.module or ''
                     if node.level:
                         parts = self.name.split('.')
-                        # a module 'a.b.c' at level 1 -> package 'a.b'
-                        base = parts[:len(parts) - node.level]
+                        # a module 'a.b.c' at level 1 -> package 'a.b'; a package
+                        # __init__ 'a.b' at level 1 -> 'a.b'
+                        drop = node.level - (1 if self.path.endswith('__init__.py') else 0)
+                        base = parts[:len(parts) - drop]
                         mod = '.'.join(base + ([mod] if mod else []))
                     for a in node.names:
                         self.imports[a.asname or a.name] = ('from', mod, a.name)
@@ -276,13 +278,11 @@ def exc_supers(cq):
         if mod == 'builtins':
             if cn == 'IOError':
                 todo.append('builtins:OSError')
-            todo.extend('builtins:' + b for b in BUILTIN_EXC.get(cn, ['Exception']
-                                                                if cn != 'BaseException' else []))
+            todo.extend('builtins:' + b for b in BUILTIN_EXC.get(cn, []))
         elif mod == 'ext':
-            todo.extend(EXT_EXC.get(c, ['builtins:Exception']))
+            todo.extend(EXT_EXC.get(c, []))
         else:
-            bs = class_bases(c)
-            todo.extend(bs if bs else ['builtins:Exception'])
+            todo.extend(class_bases(c))
     return seen
 
 
